@@ -13,7 +13,13 @@ import (
 	"verif/engine/gose"
 )
 
-const repoDir = "/repo"
+// repoDir is /repo; VERIF_REPO overrides it for development runs against a scratch copy.
+var repoDir = func() string {
+	if d := os.Getenv("VERIF_REPO"); d != "" {
+		return d
+	}
+	return "/repo"
+}()
 
 func verifDir() string {
 	if d := os.Getenv("VERIF_DIR"); d != "" {
